@@ -1464,6 +1464,14 @@ class Engine:
             return VCon(a.term, b.items[0], b.items[1])
         if isinstance(a, (VTuple,)) and isinstance(b, VTuple) and isinstance(op, ast.Add):
             return VTuple(a.items + b.items, a.kind)
+        if isinstance(op, ast.Add) and isinstance(a, VSeq) and a.sortname == 'ISeq' and isinstance(b, VTuple) and b.kind == 'list' \
+                and all(isinstance(x, int) or (is_z3(x) and z3.is_int(x)) for x in b.items):
+            t = a.term                     # abstract literal list + [x, y, ...]
+            for x in b.items:
+                t = specs.isnoc(t, toz(x))
+            return VSeq(t)
+        if isinstance(op, ast.Add) and isinstance(a, VSeq) and isinstance(b, VSeq) and a.sortname == 'ISeq' and b.sortname == 'ISeq':
+            return VSeq(specs.iapp(a.term, b.term))
         if isinstance(a, VTuple) and isinstance(op, ast.Mult) and isinstance(b, int):
             return VTuple(a.items * b, a.kind)
         if isinstance(a, str) and isinstance(b, str) and isinstance(op, ast.Add):
@@ -1892,6 +1900,28 @@ class Engine:
             c, l = [x.id for x in g.target.elts]
             if ast.unparse(e.elt) == '(-{}, {})'.format(c, l):
                 return VTerms(specs.tnegc(it.term))
+        if isinstance(it, VSeq) and it.sortname == 'ISeq' and isinstance(g.target, ast.Name) \
+                and ast.unparse(e.elt) not in ('(1, {})'.format(g.target.id), '[-{}]'.format(g.target.id), '-' + g.target.id, g.target.id):
+            # [f(p) for p in seq] with f(p) = p + c  or  -(p + c)  (e.g. the variable x(p) of a block): ishift / neg ishift.
+            # f is evaluated once for a generic position; its preconditions become obligations for that generic position
+            t = self.fresh('pos_' + g.target.id)
+            el = specs.iget(it.term, t)
+            e2 = dict(env)
+            e2[g.target.id] = el
+            saved = len(self.pc)
+            self.pc.append(z3.And(t >= 0, t < specs.ilen(it.term)))
+            try:
+                body = self.eval(e.elt, e2)
+            finally:
+                del self.pc[saved:]
+            if is_z3(body) and z3.is_int(body):
+                d1 = z3.simplify(body - el)
+                d2 = z3.simplify(body + el)
+                if not _mentions(d1, t):
+                    return VSeq(specs.ishift(it.term, d1))
+                if not _mentions(d2, t):
+                    return VSeq(specs.ineg(specs.ishift(it.term, z3.simplify(-d2))))
+            raise Unsupported('comprehension over an abstract list with a non-affine element (line {})'.format(e.lineno))
         if isinstance(it, VSeq) and it.sortname == 'ISeq' and isinstance(g.target, ast.Name):
             # recognised maps over an abstract literal list
             src = ast.unparse(e.elt)
@@ -2533,6 +2563,8 @@ def sf_olast(eng, node, v):
 
 
 SPEC_FUNCS = {
+    'ishift': _wrap(specs.ishift), 'preds': _wrap(specs.preds), 'outdeg': _wrap(specs.outdeg), 'gtopo': _wrap(specs.gtopo),
+    'gsinkok': _wrap(specs.gsinkok),
     'ocount': sf_ocount, 'olast': sf_olast,
     'aind': _wrap(specs.aind), 'gadid': sf_gadid,
     'gad': _wrap(specs.gad), 'cdist': _wrap(specs.cdist), 'cdistall': _wrap(specs.cdistall), 'cind': _wrap(specs.cind),
@@ -2552,7 +2584,7 @@ SPEC_FUNCS = {
     'count': _wrap(specs.count), 'sat': _wrap(specs.sat), 'ctrue': _wrap(specs.ctrue),
     'ilen': _wrap(specs.ilen), 'clen': _wrap(specs.clen), 'neg': _wrap(specs.ineg),
     'capp': _wrap(specs.capp), 'csnoc': _wrap(specs.csnoc), 'combs': _wrap(specs.combs),
-    'ctake': _wrap(specs.ctake), 'haszero': _wrap(specs.haszero), 'maxabs': _wrap(specs.maxabs),
+    'ctake': _wrap(specs.ctake), 'haszero': _wrap(specs.haszero), 'maxabs': _wrap(specs.maxabs), 'minof': _wrap(specs.minof), 'maxof': _wrap(specs.maxof),
     'cmaxabs': _wrap(specs.cmaxabs), 'chaszero': _wrap(specs.chaszero), 'cnil': VSeq(specs.cnil), 'pow2': _wrap(POW2),
     'iget': _wrap(specs.iget), 'cget': _wrap(specs.cget),
     'wsum': _wrap(specs.wsum), 'tlen': _wrap(specs.tlen), 'tcoef': _wrap(specs.tcoef), 'tlit': _wrap(specs.tlit),
